@@ -346,7 +346,10 @@ def strategy(max_ops):
         order = list(order)[: draw(st.integers(2, len(order)))]
         ks = {t: draw(st.integers(1, 50)) * 10 + i for i, t in enumerate(TARGETS[:6])}
         # bias: operate mostly on one or two targets so that probes overlap
-        focus = draw(st.lists(tgt, min_size=1, max_size=2))
+        focus = draw(st.one_of(
+            st.lists(tgt, min_size=1, max_size=2),
+            st.sampled_from([["inner", "maker"], ["leaf", "deep"], ["meth", "om"], ["leaf", "deep", "maker"]]),
+        ))
         ops = draw(st.lists(op, min_size=3, max_size=max_ops))
         ops = [(o[0], focus[hash(o) % len(focus)], *o[2:]) if len(o) > 1 and draw(st.integers(0, 2)) else o for o in ops]
         regime = draw(st.sampled_from(["scan", "cache"]))
